@@ -3,4 +3,4 @@ From TLXV Require Import C08.MSP.
 Require Extraction. Require ExtrOcamlBasic.
 Extraction Language OCaml.
 Extraction "../ocaml/gen/C08_model.ml" MSP.partition MSP.partition_shipped MSP.selection MSP.split_spec
-  MSP.select_spec MSP.check_split MSP.check_select MSP.kmerge Z.ltb Z.div Z.of_nat Z.to_nat Z.eqb.
+  MSP.select_spec MSP.check_split MSP.check_select MSP.kmerge MSP.rup2 Z.add Z.sub Z.ltb Z.div Z.of_nat Z.to_nat Z.eqb.
